@@ -10,7 +10,7 @@ import datetime as _dt
 import json
 import os
 
-from .. import seams, ops, world as W
+from .. import seams, ops, world as W, diskreader as D
 from .common import Out, drop_each, with_, REAL_ALL, STUB_ALL
 
 ID = "C10"
@@ -28,7 +28,7 @@ ASSUMPTIONS = [
 REAL = REAL_ALL
 STUB = STUB_ALL
 
-GROUPS = {"g1": ["~id:m~ $[*][ yes() ]"], "g2": ['~id:m~ $[1*][ #1 == "a" ]', "~id:k~ $[*][ @c = count() ]"]}
+GROUPS = {"g1": ["~id:m~ $[*][ yes() ]"], "g2": ['~id:m~ $[1*][ #1 == "a" ]', "~id:k~ $[*][ @c = count() ]"], "gr": ["~id:m~ $[*][ yes() ]"]}  # gr: only run as a replay of a ':last' reference
 ROWS = [["id", "h1"], ["r1", "a"], ["r2", "b"], [], ["r4", "a"]]
 TARGETS = {"g1": ["g1#m", "$g1.csvpaths.m:from"], "g2": ["g2#m", "g2#k", "$g2.csvpaths.m:from", "$g2.csvpaths.m:to", "$g2.csvpaths.k:to"]}
 PROFILES = ["same", "+1s", "+min", "to1259", "tomidnight", "+12h", "back"]
@@ -141,6 +141,9 @@ def generate(rng, i, tier):
         g = steps[-1]["group"]
         if rng.random() < 0.25:
             steps[-1]["target"] = rng.choice(TARGETS[g])
+        if rng.random() < 0.2:
+            # right afterwards (same second or later) another group is run over '$<group>.results.<year>:last.m'
+            steps[-1]["replay_after"] = {"method": rng.choice(["collect_paths", "fast_forward_paths", "next_paths", "collect_by_line"]), "inst": rng.choice(["same", "new"]), "tick_s": rng.choice([0, 0, 1, 3600])}
     return {
         "seed": rng.getrandbits(32),
         "listdir_salt": rng.choice([None, rng.getrandbits(16), rng.getrandbits(16)]),
@@ -184,6 +187,10 @@ def reductions(sc):
         if st.get("target"):
             c = with_(sc)
             del c["steps"][j]["target"]
+            yield c
+        if st.get("replay_after"):
+            c = with_(sc)
+            del c["steps"][j]["replay_after"]
             yield c
         if st["group"] != "g1" and not st.get("target"):
             c = with_(sc)
@@ -425,10 +432,56 @@ def execute(sc):
                             f"{where}: {ref} resolved to {got}, but the {'most recent' if which == 'last' else 'earliest'} matching run is run {top[0]['idx']} at {want}",
                             n_candidates=len(cand),
                         )
-            out.log(idx, list(cls), d, sorted(p for p in after if p not in before and not any(p.startswith(a + os.sep) for a in abandoned)), len(out.violations))
+            rp = st.get("replay_after")
+            cand = [r for r in mine if os.path.basename(r["dir"]).startswith(name[:4])]
+            top = [r for r in cand if all(x is r or _sec(x["ret"]) < _sec(r["invoke"]) for x in cand)]
+            if rp and not out.violations and len({r["epoch"] for r in cand}) == 1 and len(top) == 1 and top[0]["data"] and not top[0].get("abandoned"):
+                # (6) the reference used as the input of another group's run - possibly in the very second of the referenced run
+                ref = f"${g}.results.{name[:4]}:last.m"
+                want = os.path.join(top[0]["dir"], "m", "data.csv")
+                if rp["tick_s"]:
+                    seams.SimClock.advance(seconds=rp["tick_s"])
+                cs2 = cs if rp["inst"] == "same" else ops.new_csvpaths()
+                before2 = W.tree_hashes("archive")
+                inv2 = seams.SimClock.peek()
+                rwhere = f"{where}, then gr run by {rp['method']} over {ref} on {'the same' if cs2 is cs else 'a new'} instance {rp['tick_s']}s later"
+                try:
+                    ops.run_group(cs2, rp["method"], "gr", fname=ref)
+                    rd = ops.results_of(cs2, "gr")[0].run_dir
+                except Exception as e:  # noqa: BLE001
+                    if not ops.in_repo(e):
+                        raise
+                    out.v("last_raises", f"{rwhere}: raised {ops.exc_sig(e)}; expected it to read {want}", replay=True)
+                    break
+                out.runs += 1
+                out.probe("':last' used as the input of another group's run in the second of the referenced run", _sec(inv2) == _sec(top[0]["invoke"]))
+                after2 = W.tree_hashes("archive")
+                try:
+                    mm = D.read_json(os.path.join(rd, "m", "manifest.json"))
+                except D.ReadError as e:
+                    mm = {}
+                    out.v("replay_manifest_unreadable", f"{rwhere}: {e}")
+                if mm.get("actual_data_file") != want:
+                    out.v("last_wrong", f"{rwhere}: the run's manifest says it read {mm.get('actual_data_file')!r}, the most recent matching run's data is {want}", replay=True)
+                if os.path.dirname(rd) != os.path.join("archive", "gr"):
+                    out.v("wrong_group_dir", f"{rwhere} wrote to {rd}, not under archive/gr/", reused=cs2 is cs)
+                if any(r["dir"] == rd for r in runs):
+                    out.v("dir_reused", f"{rwhere} used run directory {rd}, already used", reused=cs2 is cs, same_second=True)
+                for pth, h in before2.items():
+                    if pth != os.path.join("archive", "manifest.json") and after2.get(pth) != h and not (any(pth.startswith(a + os.sep) for a in abandoned) and os.path.basename(pth) == "data.csv"):
+                        out.v("earlier_run_modified", f"{rwhere} {'removed' if pth not in after2 else 'changed'} {pth}, a file of an earlier run", reused=cs2 is cs)
+                        break
+                for pth in after2:
+                    if pth not in before2 and not pth.startswith(rd + os.sep) and pth != os.path.join("archive", "manifest.json"):
+                        out.v("wrote_outside_run_dir", f"{rwhere} created {pth} outside its run directory {rd}", reused=cs2 is cs)
+                        break
+                runs.append({"group": "gr", "invoke": inv2, "ret": seams.SimClock.peek(), "dir": rd, "data": None, "epoch": epoch, "idx": f"{idx}-replay"})
+                if cs2 is not cs:
+                    cs = cs2
+            out.log(idx, list(cls), d, sorted(p for p in after if p not in before and not any(p.startswith(a + os.sep) for a in abandoned)), len(out.violations), runs[-1]["dir"])
             if out.violations:
                 break
-        for pr in ("run right after an unfinished run on the same instance", "12 or more runs of one group in one second", "group addressed through a member reference", "two runs in one second", "two runs in one second, reused instance", "12:59 -> 13:00", "across midnight", "exactly 12h apart", "ordered pair compared", ":last resolved", ":first resolved"):
+        for pr in ("run right after an unfinished run on the same instance", "12 or more runs of one group in one second", "group addressed through a member reference", "two runs in one second", "two runs in one second, reused instance", "12:59 -> 13:00", "across midnight", "exactly 12h apart", "ordered pair compared", ":last resolved", ":first resolved", "':last' used as the input of another group's run in the second of the referenced run"):
             out.probe(pr, False)
         out.nontrivial = len([r for r in runs if not r.get("abandoned")]) >= 2
         out.extra["step_class_pairs"] = pairs
